@@ -1225,6 +1225,10 @@ pub fn run_proof(scn: &Scenario, ctx: &mut Ctx) {
                 targets.insert(*dg);
             }
         }
+        if targets.is_empty() && !list.is_empty() {
+            // the mask addressed positions beyond this (small) document: fall back to one existing digest
+            targets.insert(list[(st.arg(1) % list.len() as u64) as usize]);
+        }
         let absent = st.arg(2) % 5 == 0;
         if absent {
             targets.insert(sha(&st.arg(2).to_le_bytes()));
